@@ -234,7 +234,7 @@ Fixpoint while_loop (n : nat) (u : bool) (c b : list stmt) (bodyCode : N) (s : s
       let stopb := Bool.eqb (ok s) u in
       let s := set_ex (exit_clear (ex s)) s in
       if stopb then
-        (if negb (returning (ex s)) && negb (exiting (ex s)) then set_code bodyCode s else s)
+        (if negb (returning (ex s)) && negb (exiting (ex s)) && negb (fatalExit (ex s)) then set_code bodyCode s else s)
       else
         let '(s, broken) := loop_broken b s in
         let bodyCode := code (ex s) in
